@@ -138,7 +138,7 @@ PROPS = {
         "assumptions": ["known finding D9 (uninterpretable key_ops lift the restriction) is listed in known_findings.txt and proved as malformed_ops_unusable_cex"],
     },
     "C17": {
-        "modules": ["Cose.Props.C17"], "families": ["key", "impl", "sig", "ecdh", "dec", "map"], "spec_ops": ["dec.keyjson"],
+        "modules": ["Cose.Props.C17"], "families": ["key", "impl", "sig", "ecdh", "dec", "map", "conv"], "spec_ops": ["dec.keyjson", "conv.ed25519", "conv.ecdsa", "conv.ecdh", "conv.gen", "conv.keyset"],
         "extras": [{"name": "nolink", "pkg": "./nolink", "args": [], "n_quick": 1, "n_thorough": 1}],
         "n_quick": 1000, "n_thorough": 100000,
         "rule": "symmetric / Ed25519 / ECDSA keys with optional and broken members (kty, alg in every Go kind or absent or foreign, kid, key_ops, Base IV, extra labels, wrong sizes), nil key; "
@@ -147,7 +147,7 @@ PROPS = {
         "assumptions": ["JSON / text round trips reduce to the CBOR round trip through ByteStr hex (same bytes); exercised by correspondence only through map.unmarshal"],
     },
     "C15": {
-        "modules": ["Cose.Props.C15"], "families": ["sig", "ecdh"], "spec_ops": [],
+        "modules": ["Cose.Props.C15"], "families": ["sig", "ecdh", "conv"], "spec_ops": ["conv.ed25519", "conv.ecdsa", "conv.ecdh", "conv.gen"],
         "n_quick": 500, "n_thorough": 40000,
         "rule": "generated Ed25519 / P-256 / P-384 / P-521 / X25519 keys (one third with leading-zero coordinates or scalars) in the forms private, private+public, public padded / stripped / over-padded, compressed; "
                 "ToPublicKey, ToCompressedKey, the key a verifier reports, mismatching embedded public keys, off-curve x; dumps compared byte for byte with the model",
@@ -155,7 +155,7 @@ PROPS = {
         "assumptions": ["group law / point derivation correctness of Go and of the Lean reference assumed, compared against each other"],
     },
     "C10": {
-        "modules": ["Cose.Props.C10"], "families": ["sig"], "spec_ops": ["sig.verify"],
+        "modules": ["Cose.Props.C10"], "families": ["sig", "conv"], "spec_ops": ["sig.verify", "conv.ed25519", "conv.ecdsa", "conv.gen"],
         "n_quick": 500, "n_thorough": 40000,
         "rule": "ES256/384/512 + EdDSA x keys incl. leading-zero scalars/coordinates x messages 0..70000 bytes; library-made signatures (and r at the codec boundary values 1, 2^k, n-1) verified by the Lean "
                 "ECDSA / Ed25519 reference under public keys in derived / exported / compressed form; every signature then mutated (bit flip, truncation, extension, leading zero, random) and the verdicts compared; "
